@@ -25,7 +25,7 @@ ITEM_LIMIT = {"quick": 600, "thorough": 1800}
 
 
 def items(tier):
-    exprs = L.solids(tier) + L.boundary_exprs(tier) + L.products(tier) + L.default_exprs(tier) + L.lowdim_unions(tier)
+    exprs = L.solids(tier) + L.boundary_exprs(tier) + L.products(tier) + L.default_exprs(tier) + L.lowdim_unions(tier) + L.mesh_extras(tier)
     # boundaries of products: (dA x B) u (A x dB), also for a first factor that depends on the second
     exprs += [L.B(L.X(L.C1, L.IT)), L.B(L.X(L.I01, L.IT)), L.B(L.X(L.SQ, L.I(0, 2, var="y"))), L.B(L.X(L.C_GROW, L.IT)),
               L.B(L.X(L.I_GROW, L.IT))]
